@@ -3,6 +3,7 @@ package props
 import (
 	"fmt"
 	"strings"
+	"sync/atomic"
 	"time"
 
 	"github.com/fluffle/goirc/client"
@@ -172,11 +173,16 @@ func runC18Reg(c *Ctx) {
 									got = append(got, l)
 								}
 							}
+							// (nothing but the sync PING has been sent by the server so far)
 							c.R.Eval(1)
 							if strings.Join(got, "\n") != strings.Join(want, "\n") {
 								c.R.Violate(rig.Violation{Sig: "c18|registration-lines", Detail: fmt.Sprintf("connect %d: first wire lines %q, want %q", ordinal, got, want), Case: Case("reg", idx)})
 							}
 							c.R.Class(fmt.Sprintf("reg|nick%d|ident%d|pass=%v|cap=%v|tracking=%v|connect%d", ni, ii, pass != "", capn, tracking, ordinal))
+							if capn && (ni+ii)%2 == 0 {
+								// this server does answer CAP LS (what it advertised must not change the next registration)
+								mc.SendLine(":srv CAP * LS :multi-prefix sasl server-time")
+							}
 							// welcome: the second one changes the nick, so the third connect must register with the new one
 							wn := cur
 							if ordinal == 2 {
@@ -265,7 +271,34 @@ func runC18Ping(c *Ctx) {
 		for q := 1 + r.Intn(30); q < len(stream); q += 1 + r.Intn(200) {
 			cuts = append(cuts, q)
 		}
+		backlog := idx%3 == 2
+		floodDone := make(chan struct{})
+		if backlog {
+			// the PINGs arrive while the output queue is full: the server has stopped reading and the
+			// application keeps sending; every token must still be answered once the server reads again
+			mc.Stall(0)
+			var issued int64
+			go func() {
+				defer close(floodDone)
+				for k := 0; k < 150; k++ {
+					s.Conn.Raw(fmt.Sprintf("PRIVMSG #flood :line %d", k))
+					atomic.AddInt64(&issued, 1)
+				}
+			}()
+			waitUntilShort(func() bool { return atomic.LoadInt64(&issued) >= 33 && mc.BlockedWriters() > 0 }, 2*time.Second)
+			c.R.Class("ping|while-output-queue-full")
+		} else {
+			close(floodDone)
+		}
 		mc.SendSegmented(stream, cuts)
+		if backlog {
+			time.Sleep(2 * time.Millisecond)
+			mc.Resume()
+			if !waitCh(floodDone) {
+				c.R.Inconcl(fmt.Sprintf("%s: flooding goroutine did not finish", Case("ping", idx)))
+				return
+			}
+		}
 		okM := s.FgMarker(mc) && s.WireMarker(mc)
 		if !okM {
 			c.R.Inconcl(fmt.Sprintf("%s: marker not reached", Case("ping", idx)))
